@@ -52,6 +52,15 @@ CHECKS = {
     'C17': ('fault_enumeration', 'runtime monitoring of the real main_loop: loop-exit-kind oracle + executed-line budget per iteration + honest-bystander service check, under hostile datagrams / kernel events and an OSError injected at every sendto / netlink call index',
             'A hub daemon with an honest bystander peer is fed, one real main_loop iteration at a time, the C06 hostile corpus from configured and unconfigured addresses, protocol oddities, authentic-but-malformed protected messages built with an established peer\'s real keys, odd kernel messages, and OSError from sendto / the netlink socket at every call index of base histories. Every iteration must come back to select (not die), within a fixed executed-line budget, and the bystander must still complete a handshake and CHILD_SA rekey with mirror-image SADs afterwards.',
             'one event per loop iteration; line budget constants fixed a priori (4000 + 20/byte + 40/declared DELETE SPI + 800/IKE_SA); fake kernel/network', '2/C17'),
+    'C18': ('exploration', 'runtime monitoring of the cookie mechanism: DH-operation taps, reply-shape / table / cookie-value oracle (HMAC recomputed with hmac) over a threshold x half-open x established x cookie-variant grid through the real main_loop; initiator retry shape against an independent responder',
+            'Thresholds {0,3,10} x established {0,1,3} x half-open counts around the threshold x 14 cookie variants (absent, right, bit flips, truncated, extended, replayed with another SPI / nonce / source address, several cookies, previous incarnation): once the half-open count exceeds the threshold a request without a right cookie must get exactly N(COOKIE) with the HMAC value, cause zero DH operations and leave no IKE_SA; the right cookie must be accepted. A real initiator answered with N(COOKIE) must repeat its request with the cookie first and identical payloads, and complete against the independent responder.',
+            'at the boundary (count == threshold) either behaviour is accepted', '2/C18'),
+    'C19': ('exploration', 'runtime differential monitoring of Configuration() against an independent reader of the documented keys, plus exception-class oracle, over a grammar of valid / missing / ill-typed / out-of-range / unknown values at every level',
+            'Thousands of generated dictionaries (1-3 connections, PSK / RSA, IPv4 / IPv6, 1-3 protect entries; 0-3 mutations per dictionary over every documented key at connection, auth and protect level): loading either returns or raises ConfigurationError; what is accepted equals, field by field, what the documentation says (proposals in listed order with defaults, no ENCR for AH, NO_ESN, selectors, ports, protocol, mode, lifetimes, DPD, identities, PSK, key presence, index); what the documentation forbids (non-listening local address, unknown names, wrong list types, unparsable keys, missing mandatory keys) is rejected.',
+            'numeric addresses only; values the documentation is silent about must be stored as given', '2/C19'),
+    'C20': ('exploration', 'runtime monitoring of the log: every record at the default level (and the text of internal-error paths) searched for every secret derived by the independent wire shadow / DH taps / configuration, with a DEBUG-level positive control',
+            'Five families of histories (long successful histories, authentication failures against an independent impostor, mismatching configurations, kernel refusals at every request index, hostile datagrams + lossy walks) run with the root logger configured as the daemon does without -v; ~38 000 INFO+ records are searched for ~7 000 secrets (PSKs, SKEYSEED, SK_*, CHILD keys, DH secrets) in text, hex, bytes-repr and base64 form; an eighth of the histories runs at DEBUG and must show keys.',
+            'secrets < 8 octets not searched; records searched after formatting', '2/C20'),
 }
 
 
